@@ -429,6 +429,7 @@ def _r2(chk: Check, R2: str, scopes: str) -> None:
         # a helper that only hands the context manager on (`return names.make_scope(b)`) is as good as the call itself when
         # every use of the helper, package-wide, is the context expression of a with statement
         returned_by: Dict[int, str] = {}
+        method_names = {st_.name for c_ in ast.walk(m.tree) if isinstance(c_, ast.ClassDef) for st_ in c_.body if isinstance(st_, ast.FunctionDef)}
         for fn in ast.walk(m.tree):
             if isinstance(fn, ast.FunctionDef):
                 for st_ in ast.walk(fn):
@@ -450,7 +451,7 @@ def _r2(chk: Check, R2: str, scopes: str) -> None:
                     if isinstance(n2, ast.Call):
                         calls2.add(id(n2.func))
                 for n2 in ast.walk(m2.tree):
-                    is_ref = (isinstance(n2, ast.Name) and n2.id == name and isinstance(n2.ctx, ast.Load)) or \
+                    is_ref = (isinstance(n2, ast.Name) and n2.id == name and isinstance(n2.ctx, ast.Load) and name not in method_names) or \
                              (isinstance(n2, ast.Attribute) and n2.attr == name and isinstance(n2.ctx, ast.Load))
                     if not is_ref:
                         continue
